@@ -272,6 +272,7 @@ type Run struct {
 	trusted       map[string]bool
 	modCache      map[*ssa.Function]*ModSet
 	pathsCut      bool
+	pruneAll      bool // contract directive "prune"
 	inlined       map[string]bool
 	opaque        map[string]bool
 	curProps      []string
